@@ -909,6 +909,10 @@ func scenC10(c *ctx) {
 			c.rec.Emit(e)
 		}
 	}
+	// suite strings with one token damaged in every simple way
+	for _, name := range c.suiteTokenEdits() {
+		c.rec.Emit(doNewRawSuite(k("toked"), name, false))
+	}
 	n := c.n(700, 6000)
 	for i := 0; i < n; i++ {
 		t := time.Unix(weirdTimes[c.rng.Intn(len(weirdTimes))], int64(c.rng.Intn(1000000000)))
